@@ -7,6 +7,7 @@ real query and update of every step; its twin B does not.  Nothing is judged
 here; TLC compares."""
 
 import math
+import re
 import warnings
 from collections import deque
 
@@ -111,6 +112,12 @@ def manager_factories():
             budget=b, s=0.05, delta=0.5, random_state=seed),
         "BalancedIncrementalQuantileFilter": lambda b, w, seed: bm.BalancedIncrementalQuantileFilter(
             w=w, w_tol=max(2, w // 2), budget=b),
+        "VariableUncertaintyBudgetManager(theta=0.7)": lambda b, w, seed: bm.VariableUncertaintyBudgetManager(
+            w=w, budget=b, s=0.05, theta=0.7),
+        "SplitBudgetManager(theta=0.7)": lambda b, w, seed: bm.SplitBudgetManager(w=w, budget=b, v=0.3, s=0.05,
+                                                                                    theta=0.7, random_state=seed),
+        "DensityBasedSplitBudgetManager(theta=0.7)": lambda b, w, seed: bm.DensityBasedSplitBudgetManager(
+            budget=b, s=0.05, delta=0.5, theta=0.7, random_state=seed),
     }
 
 
@@ -159,6 +166,14 @@ def strategy_factories():
         "CognitiveDualQueryStrategy": (mk(st.CognitiveDualQueryStrategy, cognition_window_size=4), True),
         "CognitiveDualQueryStrategy(full)": (mk(st.CognitiveDualQueryStrategy, cognition_window_size=4,
                                                 force_full_budget=True), True),
+        # parameter sweep: documented non-default values of the parameters the entries above leave alone
+        # (metric is left alone: with a metric the strategy fits its own model and query needs X and y as well)
+        "StreamProbabilisticAL(prior=0.5,m_max=2)": (mk(st.StreamProbabilisticAL, prior=0.5, m_max=2), True),
+        "StreamDensityBasedAL(manhattan)": (mk(st.StreamDensityBasedAL, window_size=6,
+                                               dist_func_dict={"metric": "manhattan"}), True),
+        "CognitiveDualQueryStrategy(density_threshold=2,manhattan)": (
+            mk(st.CognitiveDualQueryStrategy, cognition_window_size=4, density_threshold=2,
+               dist_func_dict={"metric": "manhattan"}), True),
         "CognitiveDualQueryStrategyRan": (mk_nomgr(st.CognitiveDualQueryStrategyRan, cognition_window_size=4), False),
         "CognitiveDualQueryStrategyRanVarUn": (mk_nomgr(st.CognitiveDualQueryStrategyRanVarUn,
                                                         cognition_window_size=4, force_full_budget=True), False),
@@ -318,6 +333,8 @@ def finding_key(tr, rej):
     oe = rej["offending_event"] or {}
     ev = oe.get("ev", "end")
     name = tr["id"].split("/")[0]
+    # (the parameter-sweep configurations share the findings of their strategy)
+    name = re.sub(r"\((?=[^)]*(manhattan|prior=|theta=))[^)]*\)", "", name)
     why = ",".join(rej["failed_clauses"]) or str(oe.get("exc", "unmatched")).split(":")[0]
     key = "%s|%s|%s" % (name, ev, why)
     if why == "no-overspend-at-every-prefix":
